@@ -9,8 +9,10 @@ from harness import timeouts as T
 from harness.base import Results, corpus_lines
 
 RULE = ('case = timeout program (sleep/seq/try-except/raise/timeout block in the 4 forms x '
-        'context-manager|coroutine form) run as a task from virtual time 0 followed by a long '
-        'follow-on sleep; exhaustive family: <=3 blocks in every nesting/sibling shape x '
+        'context-manager|coroutine form, created at entry or earlier; every fourth random program '
+        'also catches / raises CancelledError or TimeoutCancellationError; a further family has '
+        'task groups inside) run as a task from virtual time 0 followed, in the same task, by a '
+        'long follow-on sleep; exhaustive family: <=3 blocks in every nesting/sibling shape x '
         'raise|ignore x deadline orders (inner<outer, outer<inner, equal, zero, past) x catch '
         'placement x body length; plus seeded random programs of depth<=4 (normal and tie-prone '
         'time grids). non-trivial = at least 2 blocks; distinct = distinct serialised program')
@@ -241,6 +243,16 @@ def run(ctx):
     evaluate(ctx, progs, res)
     res['scopes']['generated'] = n
     res['scopes']['generated_catching_cancellation'] = sum(1 for q in progs if not T.nocatch(q))
+    # timeout programs with task groups in them (clean-ups that await while a cancellation is in
+    # flight): nothing left armed, no stray cancellation, the model's trace
+    ng = (20000 if ctx.tier == 'thorough' else 4000) if ctx.deep else 500
+    gprogs = []
+    while len(gprogs) < ng:
+        q = T.gen_group(rng, 4)
+        if T.has_group(q):
+            gprogs.append(q)
+    evaluate(ctx, gprogs, res)
+    res['scopes']['generated_with_task_groups'] = ng
     return res.finish(RULE, exhaustive=ctx.deep)
 
 
